@@ -113,9 +113,9 @@ var plans = map[string]*Plan{
 	},
 	"C19": {
 		Level:     "exploration",
-		Scenarios: []ScenPlan{{"lbstop", 30000, 600000}, {"sysstop", 8000, 150000}},
+		Scenarios: []ScenPlan{{"lbstop", 30000, 600000}, {"sysstop", 8000, 150000}, {"wspool", 12000, 250000}},
 		QuickWallS: 120, ThoroughWallS: 1500,
-		Rule:        "Scenario lbstop: balancer with active probing (interval 2-6s, fast/slow/refusing/failing probe endpoints), Stop() at a drawn virtual instant (before the first probe, mid-probe, between ticks, at a tick) under a drawn interleaving, 1-3 repeated or concurrent Stop calls, optional traffic; oracle: Stop returns within one probe timeout, no probe after the first Stop returned, no WaitGroup Add racing Wait at zero. Scenario sysstop: the real shutdownGracefully over simnet with 1-4 requests in flight (before headers, mid-body, longer than the timeout), optional active probing with slow probes, a second call; bounded return, in-flight requests that fit complete in full, no probe after return.",
+		Rule:        "Scenario lbstop: balancer with active probing (interval 2-6s, fast/slow/refusing/failing probe endpoints), Stop() at a drawn virtual instant (before the first probe, mid-probe, between ticks, at a tick) under a drawn interleaving, 1-3 repeated or concurrent Stop calls, optional traffic; oracle: Stop returns within one probe timeout, no probe after the first Stop returned, no WaitGroup Add racing Wait at zero. Scenario sysstop: the real shutdownGracefully over simnet with 1-4 requests in flight (before headers, mid-body, longer than the timeout), optional active probing with slow probes, a second call; bounded return, in-flight requests that fit complete in full, no probe after return. Scenario wspool (the connection pool whose Shutdown Stop calls; the balancer itself never parks a connection in it): Shutdown in the middle of pool traffic and at the instant of a cleanup tick over stale connections returns and leaves no parked connection open.",
 		Real:        append(append([]string{}, microReal...), "cmd/helios shutdownGracefully + net/http.Server.Shutdown (sysstop)"), Stub: append(append([]string{}, microStub...), "OS signal delivery (the shutdown branch is called directly; main() is not run)"), Assumptions: commonAssumptions,
 		ExpectProbes: []string{"repeated-stop", "shutdown-returned", "in-flight-at-shutdown", "second-shutdown"},
 	},
